@@ -831,6 +831,161 @@ def swr_engine(pid, spec, tier, seed, workdir, res):
                     break
 
 
+def build_race_harness():
+    with Lock('harness-race'):
+        out_bin = os.path.join(BUILD, 'harness.race.test')
+        rc, out, err = sh([go_cmd(), 'test', '-race', '-c', '-o', out_bin, '.'], cwd=HARNESS, env=go_env(), timeout=900)
+        return rc == 0, out + err, out_bin
+
+
+def parse_cx(line):
+    """CX <case> <phase> <nres> results... <ntrace> (label event)... [| extras]"""
+    main, _, extra = line.partition(' | ')
+    c = Cur(main)
+    c.next()
+    o = dict(case=c.next(), phase=c.int())
+    t = c.next()
+    if t == 'U':
+        o['unmodelled'] = True
+        return o
+    res = []
+    for _ in range(int(t)):
+        k = c.next()
+        r = dict(res=k)
+        if k == 'R':
+            r['status'] = c.int()
+            r['body'] = c.int()
+            r['bodyok'] = c.int()
+            r['hdr'] = read_headers(c)
+        res.append(r)
+    o['results'] = res
+    tr = []
+    for _ in range(c.int()):
+        lab = c.next()
+        tr.append((lab, read_event(c)))
+    o['trace'] = tr
+    o['extra'] = dict(kv.split('=', 1) for kv in extra.split()) if extra else {}
+    return o
+
+
+def conc_engine(pid, spec, tier, seed, workdir, res):
+    """C16: (a) phases of concurrent RoundTrips under seeded schedules at store/origin-operation granularity, compared
+    with the extracted concurrent model (Conc.run_phases) on the same schedules; ownership of returned responses and
+    of the caller's request checked; (b) a free-running stress under the race detector."""
+    known = load_known()
+    out = os.path.join(workdir, 'conc')
+    os.makedirs(out, exist_ok=True)
+    kinds = res['distribution']
+    n = spec['conc']['n_thorough' if tier == 'thorough' else 'n_quick']
+    rc, log = run_harness('TestConcSched', dict(VERIF_SEED=str(seed), VERIF_N=str(n)), out, timeout=3400)
+    if rc != 0 or not os.path.exists(os.path.join(out, 'cimpl.txt')):
+        if 'panic:' in log:
+            code = 'C16:process-panic'
+            if not known_open(pid, code, known):
+                res['violations'].append(dict(kind='monitor', code=code, case='conc', payload=dict(panic=log[log.index('panic:'):][:2500])))
+        else:
+            res['errors'].append('concurrency harness failed: ' + log[-1500:])
+        return
+    rc2, o, e = sh('./modelbin %s > %s' % (os.path.join(out, 'ccases.txt'), os.path.join(out, 'cmodel.txt')), cwd=MODEL, timeout=3000)
+    if rc2 != 0:
+        res['errors'].append('model run failed on concurrent cases: ' + e[-800:])
+        return
+    cases = {}
+    cur, cid = [], None
+    for line in open(os.path.join(out, 'ccases.txt')):
+        if line.startswith('CCASE '):
+            cid, cur = line.split()[1], [line]
+        else:
+            cur.append(line)
+            if line.startswith('END'):
+                cases[cid] = ''.join(cur)
+    impl, model = {}, {}
+    for path, d in ((os.path.join(out, 'cimpl.txt'), impl), (os.path.join(out, 'cmodel.txt'), model)):
+        for line in open(path):
+            if line.startswith('CX '):
+                o = parse_cx(line)
+                d.setdefault(o['case'], []).append((o, line))
+
+    def proj(o, rn):
+        rs = tuple((r['res'], r.get('status'), r.get('body'), r.get('bodyok'),
+                    tuple(r.get('hdr', {}).get('X-Httpcache-Status', [])), tuple(r.get('hdr', {}).get('Age', []))) for r in o['results'])
+        tr = tuple((lab,) + proj_event(ev, rn, False) for lab, ev in o['trace'])
+        return rs, tr
+
+    for cid, text in cases.items():
+        res['evaluations'] += 1
+        io, mo = impl.get(cid, []), model.get(cid, [])
+        nthreads = sum(len(o['results']) for o, _ in io)
+        nsteps = sum(len(o['trace']) for o, _ in io)
+        nbg = sum(1 for o, _ in io for lab, _ in o['trace'] if lab.startswith('b'))
+        kinds['conc:phases'] = kinds.get('conc:phases', 0) + len(io)
+        kinds['conc:calls'] = kinds.get('conc:calls', 0) + nthreads
+        kinds['conc:operations'] = kinds.get('conc:operations', 0) + nsteps
+        kinds['conc:background-operations'] = kinds.get('conc:background-operations', 0) + nbg
+        if any(len(o['results']) > 1 for o, _ in io):
+            res['nontrivial'].add(hashlib.sha1(text.encode()).hexdigest())
+        for o, _ in io:
+            for r in o['results']:
+                if r['res'] in ('P', 'Z'):
+                    code = 'C16:panic' if r['res'] == 'P' else 'C16:no-response-no-error'
+                    if not known_open(pid, code, known):
+                        res['violations'].append(dict(kind='monitor', code=code, case=cid, payload=dict(case=text, observed=[pretty_line(l)[:3000] for _, l in io])))
+        if any(o.get('unmodelled') for o, _ in mo):
+            res['unmodelled'] += 1
+            continue
+        res['traces_validated'] += 1
+        rn_i, rn_m = Renamer(), Renamer()
+        if len(io) != len(mo):
+            res['mismatches'].append(dict(case=cid, exchange=0, why='different number of phases', payload=dict(case=text)))
+            continue
+        for (a, la), (b, lb) in zip(io, mo):
+            if proj(a, rn_i) != proj(b, rn_m) or b['extra'].get('quiescent') != 'true':
+                res['mismatches'].append(dict(case=cid, exchange=a['phase'], why='concurrent phase: results or operation trace differ from the model under the same schedule',
+                                              payload=dict(case=text, phase=a['phase'], implementation=pretty_line(la)[:6000], model=pretty_line(lb)[:6000])))
+                break
+    for line in open(os.path.join(out, 'cown.txt')):
+        t = line.split()
+        code = 'C16:returned-response-touched' if 'RESPONSE-TOUCHED' in line else 'C16:request-modified'
+        if not known_open(pid, code, known):
+            res['violations'].append(dict(kind='monitor', code=code, case=t[1],
+                                          payload=dict(finding=pretty_line(line)[:4000], case=cases.get(t[1], ''), observed=[pretty_line(l)[:3000] for _, l in impl.get(t[1], [])],
+                                                       meaning='after RoundTrip returned, the header map of the returned response (or the caller\'s request) was changed by the transport; the schedule in the case reproduces it')))
+    if len(res['samples']) < 3 and cases:
+        cid = sorted(cases)[0]
+        res['samples'].append(dict(case=cid, schedule=[l for l in cases[cid].splitlines() if l.startswith('SCHED')][:3]))
+    # (b) free-running stress under the race detector
+    ok, blog, _ = build_race_harness()
+    if not ok:
+        res['errors'].append('race-detector build of the harness failed: ' + blog[-800:])
+        return
+    env = go_env()
+    env.update(dict(VERIF_OUT=out, VERIF_SEED=str(seed), VERIF_N=str(spec['conc']['race_iters_thorough' if tier == 'thorough' else 'race_iters_quick'])))
+    rc3, o3, e3 = sh([os.path.join(BUILD, 'harness.race.test'), '-test.run', '^TestConcRace$', '-test.count=1', '-test.timeout', '50m'], cwd=HARNESS, env=env, timeout=3400)
+    rlog = o3 + e3
+    if 'WARNING: DATA RACE' in rlog:
+        code = 'C16:data-race'
+        if not known_open(pid, code, known):
+            i = rlog.index('WARNING: DATA RACE')
+            res['violations'].append(dict(kind='monitor', code=code, case='race-stress', payload=dict(race_report=rlog[i:i + 6000], how='harness/conc_test.go TestConcRace built with -race; VERIF_SEED=%d' % seed)))
+    rp = os.path.join(out, 'race.txt')
+    if not os.path.exists(rp):
+        if 'WARNING: DATA RACE' not in rlog:
+            res['errors'].append('race stress did not complete: ' + rlog[-1200:])
+        return
+    for line in open(rp):
+        if line.startswith('RACE '):
+            res['evaluations'] += 1
+            res['nontrivial'].add(hashlib.sha1(line.encode()).hexdigest())
+            for kv in line.split():
+                if ':' in kv and '=' in kv and kv.split(':')[0] in ('GET', 'POST'):
+                    kinds['race:' + kv.split('=')[0]] = kinds.get('race:' + kv.split('=')[0], 0) + int(kv.split('=')[1])
+            res['samples'].append(line.strip()[:300])
+        elif line.startswith('RACEFINDING'):
+            code = 'C16:' + ('returned-response-touched' if 'touched later' in line else 'request-modified' if 'request modified' in line else 'inconsistent-response')
+            if not known_open(pid, code, known):
+                res['violations'].append(dict(kind='monitor', code=code, case='race-stress', payload=dict(finding=line.strip()[:3000], how='harness/conc_test.go TestConcRace; VERIF_SEED=%d (free-running goroutines: the interleaving is not replayed exactly)' % seed)))
+
+
 # ---------------------------------------------------------------- replay files
 
 def write_replay(pid, name, payload):
